@@ -101,7 +101,9 @@ def check_after(ctx, fam, what, before, after, expect, data):
     if pa is None:
         ctx.disagree("fam.iff", "%s: file written by mutagen is not well-formed for the model (iff_wf)" % what, data)
         return
-    if pa["name"] != pb["name"] or pa["others"] != pb["others"]:
+    # save: the chunks other than the (first) ID3 chunk are the same; delete: exactly the first ID3 chunk is gone
+    kept = pa["chunks"] if expect is None else pa["others"]
+    if pa["name"] != pb["name"] or kept != pb["others"]:
         ctx.disagree("fam.iff", "%s: chunks other than the ID3 chunk differ under the model's strict reader" % what, data)
     if expect == "skip":
         return
